@@ -10,10 +10,13 @@ import (
 	"strconv"
 	"strings"
 	"sync"
+	"sync/atomic"
 	"time"
 )
 
 var verifDir = "/verif"
+var devTimeout int
+var devObl string
 
 type KnownFinding struct {
 	Property   string `json:"property"`
@@ -108,6 +111,8 @@ func main() {
 		keep := fs.Bool("keep", false, "keep smt files")
 		only := fs.String("only", "", "only functions containing this substring")
 		verbose := fs.Bool("v", false, "verbose")
+		fs.StringVar(&devObl, "obl", "", "development: solve only obligations whose name contains this substring")
+		fs.IntVar(&devTimeout, "t", 0, "development: per-obligation timeout in seconds (0: tier default); skips the refutation queries")
 		fs.Parse(os.Args[2:])
 		args := fs.Args()
 		if len(args) < 1 {
@@ -142,6 +147,9 @@ func runCheck(repo, prop, tier string, keep bool, only string, verbose bool) int
 	timeout := 20
 	if tier == "thorough" {
 		timeout = 120
+	}
+	if devTimeout > 0 {
+		timeout = devTimeout
 	}
 	P, err := LoadProgram(repo, []string{"./..."})
 	if err != nil {
@@ -246,6 +254,9 @@ func runCheck(repo, prop, tier string, keep bool, only string, verbose bool) int
 			x.obls = append(x.obls, o)
 		}
 		for _, o := range x.obls {
+			if devObl != "" && !strings.Contains(o.Name, devObl) {
+				continue
+			}
 			if o.Canary || obligationInProperty(o, j.c, prop) {
 				all = append(all, o)
 			}
@@ -257,6 +268,22 @@ func runCheck(repo, prop, tier string, keep bool, only string, verbose bool) int
 	os.MkdirAll(smtDir, 0o755)
 	var wg sync.WaitGroup
 	sem := make(chan struct{}, 16)
+	var doneCnt, failCnt int64
+	if verbose {
+		fmt.Fprintf(os.Stderr, "govc: %d obligations to solve\n", len(all))
+		stop := make(chan struct{})
+		defer close(stop)
+		go func() {
+			for {
+				select {
+				case <-stop:
+					return
+				case <-time.After(10 * time.Second):
+					fmt.Fprintf(os.Stderr, "govc: %d/%d solved, %d not discharged so far\n", atomic.LoadInt64(&doneCnt), len(all), atomic.LoadInt64(&failCnt))
+				}
+			}
+		}()
+	}
 	for idx, o := range all {
 		wg.Add(1)
 		go func(idx int, o *Obligation) {
@@ -269,7 +296,14 @@ func runCheck(repo, prop, tier string, keep bool, only string, verbose bool) int
 			}
 			script := "; " + o.Name + "\n" + o.Decls.Script(o.Assumptions, o.Goal, false)
 			o.Result = Solve(script, smtDir, fmt.Sprintf("o%04d", idx), to)
-			if !o.Canary && o.Result.Status != "unsat" && !o.Quantified {
+			atomic.AddInt64(&doneCnt, 1)
+			if !o.Canary && o.Result.Status != "unsat" {
+				atomic.AddInt64(&failCnt, 1)
+				if verbose {
+					fmt.Fprintf(os.Stderr, "govc: not discharged (%s): %s\n", o.Result.Status, o.Name)
+				}
+			}
+			if !o.Canary && o.Result.Status != "unsat" && !o.Quantified && devTimeout == 0 {
 				// refutation attempt: quantifier-free projection with a model
 				rs := o.Decls.ScriptOpt(o.Assumptions, o.Goal, true, true)
 				rr := Solve(rs, smtDir, fmt.Sprintf("o%04d.refute", idx), 10)
